@@ -244,6 +244,8 @@ with open(fin) as f, open(fout, "w") as g:
         c = json.loads(line)
         if c.get("fresh_modules"):
             _fresh_modules()
+        if c.get("scratch"):
+            os.makedirs(c["scratch"], exist_ok=True)
         signal.setitimer(signal.ITIMER_PROF, c.get("limit", limit))
         try:
             r = OPS[c["op"]](c)
@@ -251,6 +253,8 @@ with open(fin) as f, open(fout, "w") as g:
             r = {"timeout": True}
         except RecursionError as e:
             r = exc_info(e)
+        except Exception as e:   # noqa: BLE001  an operation's own scaffolding failed: report it, keep the worker alive
+            r = dict(exc_info(e), op_scaffolding_error=True)
         finally:
             signal.setitimer(signal.ITIMER_PROF, 0)
         g.write(json.dumps(r) + "\n")
